@@ -94,16 +94,66 @@ func c14Paths(thorough bool) []Path {
 	return bothModes(es)
 }
 
+// c14NestedBounds: a bound that is itself a path with a subscript visiting several elements followed by
+// a step that drops some of them (exactly one number may survive, at any position of the visit).
+func c14NestedBounds() ([]Path, []docEntry) {
+	inner := []Sub{subR(eInt(0), eInt(1)), subR(eInt(0), eLast()), subR(eInt(1), eInt(2)), sub1(eInt(0)), sub1(eInt(2))}
+	lists := [][]Sub{{sub1(eInt(0)), sub1(eInt(1))}, {sub1(eInt(1)), sub1(eInt(0))}, {sub1(eInt(0)), sub1(eInt(2))}, {sub1(eInt(2)), subR(eInt(0), eInt(1))}}
+	var idx []*Expr // index steps
+	for _, s := range inner {
+		idx = append(idx, sIndex(s))
+	}
+	for _, l := range lists {
+		idx = append(idx, sIndex(l...))
+	}
+	var bounds []*Expr
+	for _, ix := range idx {
+		for _, op := range []string{"==", ">", "<"} {
+			for k := int64(0); k <= 2; k++ {
+				bounds = append(bounds, eRoot(ix, sFilter(eCmp(op, eCur(), eInt(k)))))
+			}
+		}
+		bounds = append(bounds, eRoot(ix, sKey("a")), eRoot(ix, sFilter(eExists(eCur(sKey("a")))), sKey("a")), eRoot(ix, sAnyArray()), eRoot(ix, sIndex(sub1(eInt(0)))))
+	}
+	var es []*Expr
+	for _, b := range bounds {
+		es = append(es, eRoot(sIndex(sub1(b))), eRoot(sIndex(subR(eInt(0), b))), eRoot(sIndex(subR(b, eLast()))), eRoot(sIndex(sub1(eInt(0)), sub1(b))))
+	}
+	var vals []any
+	nums := []any{float64(0), float64(1), float64(2)}
+	for _, a := range nums {
+		for _, b := range nums {
+			for _, c := range nums {
+				vals = append(vals, []any{a, b, c})
+			}
+			vals = append(vals, []any{a, b})
+		}
+	}
+	objs := []any{map[string]any{"a": float64(1)}, map[string]any{"z": float64(0)}, float64(2), []any{float64(1)}, map[string]any{"a": float64(0)}}
+	for _, a := range objs {
+		for _, b := range objs {
+			for _, c := range objs {
+				vals = append(vals, []any{a, b, c})
+			}
+		}
+	}
+	return bothModes(es), makeDocs(vals)
+}
+
 func checkC14(c Case) *Failure {
 	f, _ := compareQueryWithRef("C14", c, nil)
 	return f
 }
 
 func runC14(r *Run) {
-	r.Rule("every array of length 0..4 over {null,1,\"a\",[2],{\"a\":3}} (781) plus non-array items and nested arrays x every single subscript, every range, every list of two (three in thorough) subscripts over bounds {-2..6,-0.5,0.5,1.9,last,last-1,last+1,last-5}, nested subscripts, and non-number / non-singleton / out-of-int32 subscripts x {lax,strict} x {float64,json.Number} x {verbose,silent}; oracle: slice arithmetic written from the statement (reference model); non-trivial = items or an error expected")
+	r.Rule("every array of length 0..4 over {null,1,\"a\",[2],{\"a\":3}} (781) plus non-array items and nested arrays x every single subscript, every range, every list of two (three in thorough) subscripts over bounds {-2..6,-0.5,0.5,1.9,last,last-1,last+1,last-5}, nested subscripts, and non-number / non-singleton / out-of-int32 subscripts x {lax,strict}; bounds that are paths `$[r] ? (@ op k)`, `$[r].a`, `$[r][*]`, `$[r][0]` with r a range or list visiting several elements (9 shapes x 3 operators x k in 0..2), as single subscript, range start, range end and list member, over every array of 2-3 numbers in 0..2 and every triple over 5 element kinds x {lax,strict} x {float64,json.Number} x {verbose,silent}; oracle: slice arithmetic written from the statement (reference model); non-trivial = items or an error expected")
 	docs := c14Docs()
 	paths := c14Paths(r.Thorough())
 	r.Bound("documents", len(docs))
 	r.Bound("paths", len(paths))
 	refSweep(r, "subscripts-vs-slice-arithmetic", paths, docs, cfgsNumSilent())
+	np, nd := c14NestedBounds()
+	r.Bound("nested_bound_paths", len(np))
+	r.Bound("nested_bound_documents", len(nd))
+	refSweep(r, "nested-subscript-bounds", np, nd, cfgsNumSilent())
 }
